@@ -665,6 +665,7 @@ func (vc *FuncVC) loopHead(l *loopInfo, b *ssa.BasicBlock, pre *State, preds []*
 		vc.assume(reach, vc.typeFacts(t, phi.Type(), 0))
 		vc.assume(reach, vc.allocFacts(head, t, phi.Type(), 0))
 	}
+	vc.autoRangeIndex(l, b, reach)
 	if l.spec != nil {
 		env := vc.invEnv(l, head, defs, nil)
 		for _, inv := range l.spec.Invariants {
@@ -1458,5 +1459,66 @@ func (vc *FuncVC) ret(b *ssa.BasicBlock, idx int, x *ssa.Return, st *State, defs
 		}
 		kind := fmt.Sprintf("post:%s@ret%d", lab, vc.retN)
 		vc.oblige(kind, en.Label, "postcondition at return site "+fmt.Sprint(vc.retN)+": "+en.Raw, x.Pos(), vc.reach[b], t)
+	}
+}
+
+// autoRangeIndex adds the invariant -1 <= rangeindex && (rangeindex == -1 || rangeindex < len) for the
+// index phi of a `for range slice` loop, after checking the exact shape go/ssa lowers such loops to
+// (phi starts at -1, every back edge carries phi+1, the head tests phi+1 < L with L defined outside).
+func (vc *FuncVC) autoRangeIndex(l *loopInfo, b *ssa.BasicBlock, reach Term) {
+	for _, ins := range b.Instrs {
+		phi, ok := ins.(*ssa.Phi)
+		if !ok {
+			break
+		}
+		if phi.Comment != "rangeindex" {
+			continue
+		}
+		var inc *ssa.BinOp
+		okShape := true
+		for i, p := range b.Preds {
+			e := phi.Edges[i]
+			if b.Dominates(p) {
+				bo, ok := e.(*ssa.BinOp)
+				if !ok || bo.Op != token.ADD || bo.X != phi {
+					okShape = false
+					break
+				}
+				if c, ok := bo.Y.(*ssa.Const); !ok || c.Int64() != 1 {
+					okShape = false
+					break
+				}
+				if inc != nil && inc != bo {
+					okShape = false
+					break
+				}
+				inc = bo
+			} else {
+				if c, ok := e.(*ssa.Const); !ok || c.Int64() != -1 {
+					okShape = false
+					break
+				}
+			}
+		}
+		if !okShape || inc == nil || inc.Block() != b {
+			continue
+		}
+		iff, ok := b.Instrs[len(b.Instrs)-1].(*ssa.If)
+		if !ok {
+			continue
+		}
+		cmp, ok := iff.Cond.(*ssa.BinOp)
+		if !ok || cmp.Op != token.LSS || cmp.X != inc {
+			continue
+		}
+		if li, ok := cmp.Y.(ssa.Instruction); ok && l.body[li.Block()] {
+			continue
+		}
+		if !l.body[b.Succs[0]] || l.body[b.Succs[1]] {
+			continue
+		}
+		p := vc.val(phi)
+		L := vc.val(cmp.Y)
+		vc.assume(reach, And(App(SBool, "<=", IntLit(-1), p), Or(Eq(p, IntLit(-1)), App(SBool, "<", p, L))))
 	}
 }
